@@ -17,6 +17,7 @@ package faultdb
 import (
 	"encoding/hex"
 	"errors"
+	"regexp"
 	"runtime"
 	"strings"
 
@@ -38,6 +39,12 @@ type Call struct {
 	Callee string `json:"callee"` // innermost function of the code under test on the stack
 	API    string `json:"api"`    // outermost function of the code under test on the stack
 	Failed bool   `json:"failed,omitempty"`
+	// Sites (failed call only): the call sites of the code under test above the
+	// failing write, outermost first, named as harness/cmd/extract-c10 names
+	// them: "<pkg>:<caller>><callee>", the last one "<pkg>:<function>>db.<Op>".
+	// A callback invoked through the database layer (ForEach) appears as
+	// "<pkg>:<function>>(callback)".
+	Sites []string `json:"sites,omitempty"`
 }
 
 // DB is the wrapper.
@@ -103,6 +110,70 @@ func (d *DB) attribute() (callee, api string) {
 	return
 }
 
+var closureRE = regexp.MustCompile(`\.func(\d+)((?:\.\d+)*)$`)
+
+// siteName turns a runtime function name into (package, name as the extractor
+// prints it): "…/wtxmgr.(*Store).insertMinedTx" -> ("wtxmgr", "(*Store).insertMinedTx"),
+// "…/waddrmgr.deletePrivateKeys.func1.2" -> ("waddrmgr", "deletePrivateKeys$1$2").
+func siteName(fn string) (pkg, name string) {
+	if i := strings.LastIndex(fn, "/"); i >= 0 {
+		fn = fn[i+1:]
+	}
+	i := strings.Index(fn, ".")
+	if i < 0 {
+		return "", fn
+	}
+	pkg, name = fn[:i], fn[i+1:]
+	name = strings.TrimSuffix(name, "-fm")
+	for {
+		m := closureRE.FindStringSubmatchIndex(name)
+		if m == nil {
+			break
+		}
+		suffix := "$" + name[m[2]:m[3]] + strings.ReplaceAll(name[m[4]:m[5]], ".", "$")
+		name = name[:m[0]] + suffix
+	}
+	return pkg, name
+}
+
+func (d *DB) siteChain(op string) []string {
+	var pcs [64]uintptr
+	n := runtime.Callers(3, pcs[:])
+	frames := runtime.CallersFrames(pcs[:n])
+	type fr struct{ pkg, name string }
+	var chain []fr // innermost first
+	for {
+		f, more := frames.Next()
+		for _, p := range d.Packages {
+			if strings.Contains(f.Function, p) {
+				pkg, name := siteName(f.Function)
+				chain = append(chain, fr{pkg, name})
+				break
+			}
+		}
+		if !more {
+			break
+		}
+	}
+	if len(chain) == 0 {
+		return nil
+	}
+	if op == "Cursor.Delete" {
+		op = "Delete"
+	}
+	var out []string
+	for i := len(chain) - 1; i >= 1; i-- {
+		caller, callee := chain[i], chain[i-1]
+		if caller.pkg == callee.pkg && strings.HasPrefix(callee.name, caller.name+"$") {
+			out = append(out, caller.pkg+":"+caller.name+">(callback)")
+			continue
+		}
+		out = append(out, caller.pkg+":"+caller.name+">"+callee.name)
+	}
+	out = append(out, chain[0].pkg+":"+chain[0].name+">db."+op)
+	return out
+}
+
 // before registers a mutating call and decides whether it fails.
 func (d *DB) before(op string, key []byte) error {
 	c := Call{N: len(d.Calls) + 1, Op: op}
@@ -114,6 +185,7 @@ func (d *DB) before(op string, key []byte) error {
 	c.Callee, c.API = d.attribute()
 	if d.FailAt > 0 && c.N == d.FailAt {
 		c.Failed = true
+		c.Sites = d.siteChain(op)
 		d.Fired = true
 		d.Calls = append(d.Calls, c)
 		return ErrInjected
